@@ -20,6 +20,8 @@ CLAIMED = {
              note="Trusted: truth-table model, the two SDD readers, allocator seam. Bounds: <= 7 variables, <= 160 operations; operands whose unfolded size exceeds a cap are not reused (rsdd's structural pointer ordering is exponential on deep shared diagrams; cost control only)."),
  "C04": dict(section="5 C04", text="The same simulated histories with compression on: every reachable decision node is audited from the truth tables of its elements against the vtree (primes non-false, disjoint, exhaustive, left variables only; subs right variables only and pairwise different; not trimmable), a run-global function->pointer map over all handles and all sub-diagrams decides canonicity, and every live node is looked up again at the end. Sampling evidence.",
              note="Trusted: truth-table model, vtree leaf sets read through the public VTree API. The library's is_compressed/is_trimmed are evaluated as a cross-check only (disagreements are counted, not reported)."),
+ "C10": dict(section="5 C10", text="Seeded simulation of query histories: 1-4 logical callers interleave queries of different result types (eight semirings, evaluate, node count, (cached) semantic hash, bdd_fold, marginal MAP / MEU / branch-and-bound, smooth, condition) over BDD, SDD and top-down diagrams that share nodes, sub-diagrams and complements; each answer must equal the answer on a freshly built copy in a brand-new builder, and after every public call every scratch slot of every node in the builder (not only the roots) must be empty. Sampling evidence.",
+             note="Trusted: the fresh-copy construction (Shannon expansion from the truth table; recompilation of the same CNF for top-down), exact weights. The oracle does not judge correctness of the fresh answer."),
 }
 
 NA = {
